@@ -11,8 +11,20 @@ For the whole operator fragment `value (trivia* binop trivia* value)*` (any numb
 tokens) see `Garnish.Props.C02Parse.C18_parse_whitespace_insensitive_fragment`.
 The general statement (any number of trivia tokens at any position that does not change list detection) is `C18_parse_trivia`
 (a `def`); the generator-level check is `gen_trivia_pairs` / `same_tree` in tools/gen/parsegen.py.
+
+Second part — the licensed rewrites as relations on token lists (definitions in Lemmas/RefTrivia2, RefWrap2):
+  `AddSpace`, `AddAnnotation` / `AddLineAnnotation`, `TrailingSpace`, and `WrapOK` (parentheses around a complete operand).
+For each: the reference parser returns the same tree up to token positions (`TreeEqTrivia`), resp. up to positions and
+`( )` nodes (`TreeEqGroups`) — `C18_refParse_addSpace`, `C18_refParse_addAnnotation`, `C18_refParse_trailingSpace`,
+`C18_refParse_wrapOperand`, for ALL token lists; and the corollaries for the real algorithm on the fragment `frag9`
+(`C18_parse_addSpace`, `C18_parse_addAnnotation`, `C18_parse_wrapOperand`; `C18_parse_trailingSpace` holds for every
+token list).  Where a rewrite is not invariant the guard is kept in the relation and a witness is proved:
+`C18_space_between_operands_differs`, `C18_wrap_left_assoc_differs`, `C18_wrap_property_differs`.
 -/
 import Garnish.Lemmas.ParserInv
+import Garnish.Lemmas.RefTrailing
+import Garnish.Lemmas.RefWrap2
+import Garnish.Props.C02Parse
 namespace Garnish.Props.C18Parse
 open Garnish Garnish.Gen Garnish.Model.Parser
 
@@ -73,5 +85,220 @@ inductive InsertTrivia : List PToken → List PToken → Prop
 
 /-- the general statement (NOT proved in this generality: the proved case is a single trivia token followed by an atom) -/
 def C18_parse_trivia : Prop := ∀ a b, InsertTrivia a b → sameShape (parse a) (parse b)
+
+/-! ### the licensed rewrites, reference grammar and real algorithm -/
+
+open Garnish.Spec Garnish.Props.C02Parse
+
+/-- same tree up to trivia: equal after forgetting the token positions stored in the nodes (an inserted token shifts the
+    positions of everything behind it; a `List` node carries the position of the token before its right operand) -/
+def TreeEqTrivia (a b : RTree) : Prop := a.eraseTok = b.eraseTok
+
+/-- same tree up to trivia and added group nodes: equal after forgetting positions and removing `( )` nodes -/
+def TreeEqGroups (a b : RTree) : Prop := a.stripGroups = b.stripGroups
+
+/-- trees of two outcomes are related, or both are the same failure -/
+def OutcomeEq (R : RTree → RTree → Prop) (a b : Outcome RTree) : Prop := ORel R a b
+
+theorem outcomeEq_of_mapT {g : RTree → RTree} {a b : Outcome RTree} (h : a.mapT g = b.mapT g) :
+    OutcomeEq (fun x y => g x = g y) a b := by
+  cases a <;> cases b <;> simp only [Outcome.mapT] at h <;> simp only [OutcomeEq, ORel] <;>
+    first | (injection h) | exact True.intro | cases h
+
+theorem C18_refParse_addSpace {a b : List PToken} (h : AddSpace a b) (ha : NoTrim a) (hb : NoTrim b) :
+    OutcomeEq TreeEqTrivia (refParse Table.gen a) (refParse Table.gen b) :=
+  outcomeEq_of_mapT (refParse_addSpace h ha hb)
+
+theorem C18_refParse_addAnnotation {a b : List PToken} (h : AddAnnotation a b) (ha : NoTrim a) (hb : NoTrim b) :
+    OutcomeEq TreeEqTrivia (refParse Table.gen a) (refParse Table.gen b) :=
+  outcomeEq_of_mapT (refParse_addAnnotation h ha hb)
+
+theorem C18_refParse_addLineAnnotation {a b : List PToken} (h : AddLineAnnotation a b) (ha : NoTrim a) (hb : NoTrim b) :
+    OutcomeEq TreeEqTrivia (refParse Table.gen a) (refParse Table.gen b) :=
+  C18_refParse_addAnnotation h.toAdd ha hb
+
+/-- trailing whitespace / blank lines: exactly the same reference tree, for every token list and every table -/
+theorem C18_refParse_trailingSpace (tbl : Table) {a b : List PToken} (h : TrailingSpace a b) :
+    refParse tbl b = refParse tbl a := refParse_trailingSpace tbl h
+
+/-- trailing whitespace / blank lines: the real algorithm returns exactly the same result, for every token list -/
+theorem C18_parse_trailingSpace {a b : List PToken} (h : TrailingSpace a b) : parse b = parse a := parse_trailingSpace h
+
+theorem C18_refParse_wrapOperand {pre mid post : List PToken} {f : Frame} {stack : List Frame} {f1 : Frame} {M M0 : RTree}
+    (h : WrapOK pre mid post f stack f1 M M0) {o c : PToken} (ho : o.type = .startGroup) (hc : c.type = .endGroup)
+    (hn : NoTrim (pre ++ (mid ++ post))) (hn' : NoTrim (pre ++ o :: (mid ++ c :: post))) :
+    OutcomeEq TreeEqGroups (refParse Table.gen (pre ++ (mid ++ post)))
+      (refParse Table.gen (pre ++ o :: (mid ++ c :: post))) :=
+  outcomeEq_of_mapT (refParse_wrapOperand h ho hc hn hn')
+
+/-! ### the real algorithm on `frag9` -/
+
+theorem noTrim_of_head_last {toks : List PToken} {t z : PToken} {rest init : List PToken} (h1 : toks = t :: rest)
+    (ht : isTrimmable t = false) (h2 : toks = init ++ [z]) (hz : isTrimmable z = false) : NoTrim toks := by
+  refine ⟨by rw [h1]; simp, by rw [h1]; simp [trimStart, ht], ?_⟩
+  rw [h2]; simp [trimStart, hz]
+
+theorem frag9_noTrim {toks : List PToken} (h : frag9 toks = true) : NoTrim toks := by
+  unfold frag9 at h
+  rcases Bool.or_eq_true _ _ |>.mp h with h | h
+  · obtain ⟨e, hok, rfl⟩ := fragF_sound h
+    obtain ⟨t, rest, h1, ht⟩ := ex_head e false hok
+    obtain ⟨init, z, h2, hz⟩ := ex_last e false hok
+    exact noTrim_of_head_last h1 ht h2 hz
+  · obtain ⟨e, ws1, k, hok, _, hk, rfl⟩ := fragTC_sound h
+    obtain ⟨t, rest, h1, ht⟩ := ex_head e false hok
+    have hkt : isTrimmable k = false := by
+      unfold isCommaTok at hk
+      have : k.type = .comma := by simpa using hk
+      simp only [isTrimmable, this]; rfl
+    exact noTrim_of_head_last (rest := rest ++ (ws1 ++ [k])) (init := e.toks ++ ws1) (by rw [h1]; simp) ht (by simp) hkt
+
+/-- from an invariance of the reference tree to the trees of the real algorithm, for two lists of the fragment -/
+theorem C18_parse_of_refParse {R : RTree → RTree → Prop} {a b : List PToken} (fa : frag9 a = true) (fb : frag9 b = true)
+    (na : NumberedFrom 0 a) (nb : NumberedFrom 0 b) (h : OutcomeEq R (refParse Table.gen a) (refParse Table.gen b)) :
+    ∃ r t r' t', parse a = .ok r ∧ toTree r = some t ∧ parse b = .ok r' ∧ toTree r' = some t' ∧
+      R (treeToRG r t) (treeToRG r' t') := by
+  obtain ⟨r, t, h1, h2, h3⟩ := C02_parse_correct_fragment_optional a fa na
+  obtain ⟨r', t', h1', h2', h3'⟩ := C02_parse_correct_fragment_optional b fb nb
+  rw [h3, h3'] at h
+  exact ⟨r, t, r', t', h1, h2, h1', h2', h⟩
+
+/-- **adding a space, real algorithm**: both lists in the fragment ⇒ both parse, to the same tree up to positions -/
+theorem C18_parse_addSpace {a b : List PToken} (h : AddSpace a b) (fa : frag9 a = true) (fb : frag9 b = true)
+    (na : NumberedFrom 0 a) (nb : NumberedFrom 0 b) :
+    ∃ r t r' t', parse a = .ok r ∧ toTree r = some t ∧ parse b = .ok r' ∧ toTree r' = some t' ∧
+      TreeEqTrivia (treeToRG r t) (treeToRG r' t') :=
+  C18_parse_of_refParse fa fb na nb (C18_refParse_addSpace h (frag9_noTrim fa) (frag9_noTrim fb))
+
+theorem C18_parse_addAnnotation {a b : List PToken} (h : AddAnnotation a b) (fa : frag9 a = true) (fb : frag9 b = true)
+    (na : NumberedFrom 0 a) (nb : NumberedFrom 0 b) :
+    ∃ r t r' t', parse a = .ok r ∧ toTree r = some t ∧ parse b = .ok r' ∧ toTree r' = some t' ∧
+      TreeEqTrivia (treeToRG r t) (treeToRG r' t') :=
+  C18_parse_of_refParse fa fb na nb (C18_refParse_addAnnotation h (frag9_noTrim fa) (frag9_noTrim fb))
+
+theorem C18_parse_addLineAnnotation {a b : List PToken} (h : AddLineAnnotation a b) (fa : frag9 a = true)
+    (fb : frag9 b = true) (na : NumberedFrom 0 a) (nb : NumberedFrom 0 b) :
+    ∃ r t r' t', parse a = .ok r ∧ toTree r = some t ∧ parse b = .ok r' ∧ toTree r' = some t' ∧
+      TreeEqTrivia (treeToRG r t) (treeToRG r' t') :=
+  C18_parse_addAnnotation h.toAdd fa fb na nb
+
+/-- **wrapping a complete operand, real algorithm**: same tree up to positions and the added group node.
+    The wrapped list is `b`, equal to `pre ++ ( :: mid ++ ) :: post` up to the positions stored in the tokens. -/
+theorem C18_parse_wrapOperand {pre mid post b : List PToken} {f : Frame} {stack : List Frame} {f1 : Frame} {M M0 : RTree}
+    (h : WrapOK pre mid post f stack f1 M M0) {o c : PToken} (ho : o.type = .startGroup) (hc : c.type = .endGroup)
+    (hb : SameTypes (pre ++ o :: (mid ++ c :: post)) b) (fa : frag9 (pre ++ (mid ++ post)) = true) (fb : frag9 b = true)
+    (na : NumberedFrom 0 (pre ++ (mid ++ post))) (nb : NumberedFrom 0 b) :
+    ∃ r t r' t', parse (pre ++ (mid ++ post)) = .ok r ∧ toTree r = some t ∧ parse b = .ok r' ∧ toTree r' = some t' ∧
+      TreeEqGroups (treeToRG r t) (treeToRG r' t') := by
+  apply C18_parse_of_refParse fa fb na nb
+  rw [← refParse_types Table.gen hb]
+  exact C18_refParse_wrapOperand h ho hc (frag9_noTrim fa) ((frag9_noTrim fb).types hb.symm)
+
+/-! ### non-vacuity and witnesses -/
+
+/-- `x+y` → `x+ y` (after an operator) -/
+def exSpA : List PToken := [tk .identifier "x" 0, tk .plusSign "+" 1, tk .identifier "y" 2]
+def exSpB : List PToken := [tk .identifier "x" 0, tk .plusSign "+" 1, tk .whitespace " " 2, tk .identifier "y" 3]
+/-- `x+y` → `x +y` (before an operator) -/
+def exSpC : List PToken := [tk .identifier "x" 0, tk .whitespace " " 1, tk .plusSign "+" 2, tk .identifier "y" 3]
+theorem exSp_add : AddSpace exSpA exSpB :=
+  ⟨_, AddSpace0.after [tk .identifier "x" 0] [] [tk .identifier "y" 2] (tk .plusSign "+" 1) (tk .whitespace " " 2) rfl
+    (Or.inr rfl) (by simp), rfl⟩
+theorem exSp_add' : AddSpace exSpA exSpC :=
+  ⟨_, AddSpace0.before [tk .identifier "x" 0] [] [tk .identifier "y" 2] (tk .whitespace " " 1) (tk .plusSign "+" 1) rfl
+    (Or.inr rfl) (by simp), rfl⟩
+theorem exSp_frag : frag9 exSpA = true ∧ frag9 exSpB = true ∧ frag9 exSpC = true := by decide
+theorem exSp_numbered : NumberedFrom 0 exSpA ∧ NumberedFrom 0 exSpB ∧ NumberedFrom 0 exSpC := by
+  simp [exSpA, exSpB, exSpC, NumberedFrom, tk]
+
+theorem exSp_parse : ∃ r t r' t', parse exSpA = .ok r ∧ toTree r = some t ∧ parse exSpB = .ok r' ∧ toTree r' = some t' ∧
+    TreeEqTrivia (treeToRG r t) (treeToRG r' t') :=
+  C18_parse_addSpace exSp_add exSp_frag.1 exSp_frag.2.1 exSp_numbered.1 exSp_numbered.2.1
+theorem exSp_parse' : ∃ r t r' t', parse exSpA = .ok r ∧ toTree r = some t ∧ parse exSpC = .ok r' ∧ toTree r' = some t' ∧
+    TreeEqTrivia (treeToRG r t) (treeToRG r' t') :=
+  C18_parse_addSpace exSp_add' exSp_frag.1 exSp_frag.2.2 exSp_numbered.1 exSp_numbered.2.2
+
+/-- `f @a y` → `f @a  y` (a list: the inserted space is next to whitespace, an annotation in between) and
+    `x+y` → `x @a +y` (an annotation) -/
+def exAnA : List PToken := [tk .identifier "f" 0, tk .whitespace " " 1, tk .annotation "@a" 2, tk .identifier "y" 3]
+def exAnB : List PToken :=
+  [tk .identifier "f" 0, tk .whitespace " " 1, tk .annotation "@a" 2, tk .whitespace " " 3, tk .identifier "y" 4]
+def exAnC : List PToken := [tk .identifier "x" 0, tk .annotation "@a" 1, tk .plusSign "+" 2, tk .identifier "y" 3]
+theorem exAn_space : AddSpace exAnA exAnB :=
+  ⟨_, AddSpace0.after [tk .identifier "f" 0] [tk .annotation "@a" 2] [tk .identifier "y" 3] (tk .whitespace " " 1)
+    (tk .whitespace " " 3) rfl (Or.inl rfl) (by simp [isAnnTok, tk]), rfl⟩
+theorem exAn_add : AddAnnotation exSpA exAnC :=
+  ⟨_, AddAnnotation0.mk [tk .identifier "x" 0] [tk .plusSign "+" 1, tk .identifier "y" 2] (tk .annotation "@a" 1) rfl, rfl⟩
+theorem exAn_frag : frag9 exAnA = true ∧ frag9 exAnB = true ∧ frag9 exAnC = true := by decide
+theorem exAn_numbered : NumberedFrom 0 exAnA ∧ NumberedFrom 0 exAnB ∧ NumberedFrom 0 exAnC := by
+  simp [exAnA, exAnB, exAnC, NumberedFrom, tk]
+
+theorem exAn_parse : ∃ r t r' t', parse exAnA = .ok r ∧ toTree r = some t ∧ parse exAnB = .ok r' ∧ toTree r' = some t' ∧
+    TreeEqTrivia (treeToRG r t) (treeToRG r' t') :=
+  C18_parse_addSpace exAn_space exAn_frag.1 exAn_frag.2.1 exAn_numbered.1 exAn_numbered.2.1
+theorem exAn_parse' : ∃ r t r' t', parse exSpA = .ok r ∧ toTree r = some t ∧ parse exAnC = .ok r' ∧ toTree r' = some t' ∧
+    TreeEqTrivia (treeToRG r t) (treeToRG r' t') :=
+  C18_parse_addAnnotation exAn_add exSp_frag.1 exAn_frag.2.2 exSp_numbered.1 exAn_numbered.2.2
+theorem exTrail_parse : parse (exSpA ++ [tk .whitespace " " 3, tk .subexpression "\n\n" 4]) = parse exSpA :=
+  C18_parse_trailingSpace (.mk exSpA _ (by simp [isTrimmable, tk]))
+
+/-- `a+b*c` → `a+(b*c)` -/
+def exWrPre : List PToken := [tk .identifier "a" 0, tk .plusSign "+" 1]
+def exWrMid : List PToken := [tk .identifier "b" 2, tk .multiplicationSign "*" 3, tk .identifier "c" 4]
+def exWrB : List PToken :=
+  [tk .identifier "a" 0, tk .plusSign "+" 1, tk .startGroup "(" 2, tk .identifier "b" 3, tk .multiplicationSign "*" 4,
+   tk .identifier "c" 5, tk .endGroup ")" 6]
+theorem exWr_ok : WrapOK exWrPre exWrMid []
+    { ctx := none, cur := .node (.node .nil .identifier 0 .nil) .addition 1 .nil, last := .op, ws := false, prevSep := false }
+    []
+    { ctx := none, cur := .node (.node .nil .identifier 0 .nil) .addition 1 .nil, last := .op, ws := false, prevSep := false }
+    (.node (.node .nil .identifier 2 .nil) .multiplicationSign 3 (.node .nil .identifier 4 .nil))
+    (.node (.node .nil .identifier 1 .nil) .multiplicationSign 2 (.node .nil .identifier 3 .nil)) where
+  runPre := rfl
+  before := rfl
+  openB := rfl
+  head := rfl
+  runMid := rfl
+  alone := rfl
+  same := rfl
+  ends := ⟨[tk .identifier "b" 2, tk .multiplicationSign "*" 3], tk .identifier "c" 4, rfl, rfl⟩
+  acc := Or.inl rfl
+  next := rfl
+theorem exWr_frag : frag9 (exWrPre ++ (exWrMid ++ [])) = true ∧ frag9 exWrB = true := by decide
+theorem exWr_numbered : NumberedFrom 0 (exWrPre ++ (exWrMid ++ [])) ∧ NumberedFrom 0 exWrB := by
+  simp [exWrPre, exWrMid, exWrB, NumberedFrom, tk]
+theorem exWr_parse : ∃ r t r' t', parse (exWrPre ++ (exWrMid ++ [])) = .ok r ∧ toTree r = some t ∧ parse exWrB = .ok r' ∧
+    toTree r' = some t' ∧ TreeEqGroups (treeToRG r t) (treeToRG r' t') :=
+  C18_parse_wrapOperand exWr_ok (o := tk .startGroup "(" 2) (c := tk .endGroup ")" 5) rfl rfl rfl exWr_frag.1 exWr_frag.2
+    exWr_numbered.1 exWr_numbered.2
+
+/-- **not licensed: a space between two operands** — `a(x)` is a syntax error for both parsers, `a (x)` is a list -/
+theorem C18_space_between_operands_differs :
+    refParse Table.gen [tk .identifier "a" 0, tk .startGroup "(" 1, tk .identifier "x" 2, tk .endGroup ")" 3] = .err .syntax ∧
+    refParse Table.gen [tk .identifier "a" 0, tk .whitespace " " 1, tk .startGroup "(" 2, tk .identifier "x" 3,
+        tk .endGroup ")" 4] =
+      .ok (.node (.node .nil .identifier 0 .nil) .list 1 (.group .group 2 (.node .nil .identifier 3 .nil))) ∧
+    (parse [tk .identifier "a" 0, tk .startGroup "(" 1, tk .identifier "x" 2, tk .endGroup ")" 3]).isOk = false ∧
+    (parse [tk .identifier "a" 0, tk .whitespace " " 1, tk .startGroup "(" 2, tk .identifier "x" 3,
+        tk .endGroup ")" 4]).isOk = true := by
+  refine ⟨rfl, rfl, ?_, ?_⟩ <;> decide
+
+/-- **not a complete operand**: `a-b-c` is `(a-b)-c`; parentheses around `b-c` change the tree (`NextPasses` / the run
+    condition of `WrapOK` fails: `-` does not stop at `-`) -/
+theorem C18_wrap_left_assoc_differs :
+    ∃ T1 T2,
+      refParse Table.gen [tk .identifier "a" 0, tk .subtraction "-" 1, tk .identifier "b" 2, tk .subtraction "-" 3,
+        tk .identifier "c" 4] = .ok T1 ∧
+      refParse Table.gen [tk .identifier "a" 0, tk .subtraction "-" 1, tk .startGroup "(" 2, tk .identifier "b" 3,
+        tk .subtraction "-" 4, tk .identifier "c" 5, tk .endGroup ")" 6] = .ok T2 ∧ ¬ TreeEqGroups T1 T2 :=
+  ⟨_, _, rfl, rfl, by unfold TreeEqGroups; decide⟩
+
+/-- **the Property position of `.`**: `a.b` has a Property node, `a.(b)` an Identifier (guard `acc` of `WrapOK`) -/
+theorem C18_wrap_property_differs :
+    ∃ T1 T2,
+      refParse Table.gen [tk .identifier "a" 0, tk .period "." 1, tk .identifier "b" 2] = .ok T1 ∧
+      refParse Table.gen [tk .identifier "a" 0, tk .period "." 1, tk .startGroup "(" 2, tk .identifier "b" 3,
+        tk .endGroup ")" 4] = .ok T2 ∧ ¬ TreeEqGroups T1 T2 :=
+  ⟨_, _, rfl, rfl, by unfold TreeEqGroups; decide⟩
 
 end Garnish.Props.C18Parse
